@@ -433,6 +433,9 @@ class TableCheck:
                 while x[0] in ('ref', 'cref') and isinstance(x[1], tuple):
                     x = x[1]
                 sink = parse.sink_of_place(self.pa.e, x) if x[0] in ('L', 'F') else None
+                lp = lv_path(x)
+                if lp is not None:
+                    sink = lp                                   # loop-carried value of local.field...
                 if sink is not None and self.slots.slot_of_sink(sink) == slot:
                     out.append(v)
             if k[0] == 'tag':
@@ -440,6 +443,9 @@ class TableCheck:
                 while x[0] in ('ref', 'cref', 'init', 'optref') and isinstance(x[1], tuple):
                     x = x[1]
                 sink = parse.sink_of_place(self.pa.e, x) if x[0] in ('L', 'F') else None
+                lp = lv_path(x)
+                if lp is not None:
+                    sink = lp
                 if sink is not None and self.slots.slot_of_sink(sink) == slot:
                     out.append(v == 'neg')
         return out
@@ -451,6 +457,17 @@ class TableCheck:
     def slot_known_nonempty(self, st, slot):
         f = self.slot_emptiness_facts(st, slot)
         return bool(f) and not all(f)
+
+
+def lv_path(x):
+    """('L', local, field path) designated by a loop-carried value term: fld(..fld(lv(key), i).., j)"""
+    path = []
+    while isinstance(x, tuple) and x and x[0] == 'fld' and isinstance(x[2], int):
+        path.append(x[2])
+        x = x[1]
+    if isinstance(x, tuple) and x and x[0] == 'lv' and isinstance(x[1], tuple) and x[1]:
+        return ('L', x[1][0], tuple(x[1][1:]) + tuple(reversed(path)))
+    return None
 
 
 def normalise_slot(s):
